@@ -16,6 +16,10 @@ func (e *Enc) instr(fr *Frame, b *ssa.BasicBlock, in ssa.Instruction, st *State)
 	switch x := in.(type) {
 	case *ssa.DebugRef:
 	case *ssa.RunDefers:
+		e.flushGhost(fr, st)
+		for i := len(fr.defers) - 1; i >= 0; i-- {
+			e.runDeferred(fr, fr.defers[i], st)
+		}
 	case *ssa.Alloc:
 		elem := x.Type().Underlying().(*types.Pointer).Elem()
 		if arr, isArr := elem.Underlying().(*types.Array); isArr {
@@ -152,14 +156,19 @@ func (e *Enc) instr(fr *Frame, b *ssa.BasicBlock, in ssa.Instruction, st *State)
 	case *ssa.Next:
 		e.next(fr, x, st)
 	case *ssa.Call:
+		e.flushGhost(fr, st)
 		e.midAsserts(fr, x, st)
 		e.call(fr, x, st)
+		e.ghostSets(fr, x, st)
 	case *ssa.Go:
 		e.note("go statement ignored")
 		e.modelled("goroutines started by the function are not modelled")
 	case *ssa.Defer:
-		e.note("defer ignored")
-		e.modelled("deferred calls are not modelled (recover idiom treated as: panic => error)")
+		var dargs []Val
+		for _, a := range x.Call.Args {
+			dargs = append(dargs, e.val(fr, a))
+		}
+		fr.defers = append(fr.defers, deferred{d: x, args: dargs, guard: st.reach})
 	case *ssa.Send:
 		e.note("channel send ignored")
 	case *ssa.Select:
@@ -171,6 +180,7 @@ func (e *Enc) instr(fr *Frame, b *ssa.BasicBlock, in ssa.Instruction, st *State)
 		}
 		fr.vals[x] = Val{T: ts}
 	case *ssa.If:
+		e.flushGhost(fr, st)
 		c := e.val(fr, x.Cond).t()
 		fr.edge[[2]*ssa.BasicBlock{b, b.Succs[0]}] = tb.And(st.reach, c)
 		fr.edge[[2]*ssa.BasicBlock{b, b.Succs[1]}] = tb.And(st.reach, tb.Not(c))
@@ -182,10 +192,18 @@ func (e *Enc) instr(fr *Frame, b *ssa.BasicBlock, in ssa.Instruction, st *State)
 			}
 		}
 	case *ssa.Jump:
+		e.flushGhost(fr, st)
 		if isBackEdge(b, b.Succs[0]) {
 			e.backEdgeCheck(fr, b, b.Succs[0], *st)
 		}
 	case *ssa.Return:
+		e.flushGhost(fr, st)
+		if fr.con != nil && fr.parent == nil {
+			for _, gs := range fr.con.ghostReturn {
+				env := e.envAt(fr, st, nil)
+				e.ghostAssign(fr, st, env, gs)
+			}
+		}
 		var vals []*Term
 		for _, r := range x.Results {
 			vals = append(vals, e.val(fr, r).t())
@@ -303,7 +321,65 @@ func (e *Enc) unop(fr *Frame, x *ssa.UnOp, st *State) {
 	}
 }
 
+// chanContractFor finds the `channel T.f` block for a receive from a channel loaded from field f of a *T.
+func (e *Enc) chanContractFor(x *ssa.UnOp) (*FuncContract, ssa.Value) {
+	ld, ok := x.X.(*ssa.UnOp)
+	if !ok || ld.Op != token.MUL {
+		return nil, nil
+	}
+	fa, ok := ld.X.(*ssa.FieldAddr)
+	if !ok {
+		return nil, nil
+	}
+	pt, ok := fa.X.Type().Underlying().(*types.Pointer)
+	if !ok {
+		return nil, nil
+	}
+	n, ok := pt.Elem().(*types.Named)
+	if !ok || n.Obj().Pkg() == nil {
+		return nil, nil
+	}
+	su := n.Underlying().(*types.Struct)
+	key := n.Obj().Pkg().Path() + "::channel:" + n.Obj().Name() + "." + su.Field(fa.Field).Name()
+	return e.L.contracts.funcs[key], fa.X
+}
+
 func (e *Enc) recv(fr *Frame, x *ssa.UnOp, st *State) {
+	if cc, base := e.chanContractFor(x); cc != nil && cc.chanValue.expr != nil && cc.chanOK.expr != nil {
+		bv := e.val(fr, base)
+		env := &evalEnv{e: e, st: st, old: st, vars: map[string]SV{"self": {t: bv.t(), typ: base.Type(), addr: bv.Addr}}, bound: map[string]SV{}, pkg: e.L.typesPkg(cc.pkg)}
+		v, err1 := env.evalAny(cc.chanValue.expr)
+		okT, err2 := env.evalBool(cc.chanOK.expr)
+		if err1 == nil && err2 == nil {
+			cc.used = true
+			var vt types.Type
+			if x.CommaOk {
+				vt = x.Type().(*types.Tuple).At(0).Type()
+			} else {
+				vt = x.Type()
+			}
+			val := e.tb.Ite(okT, v.t, e.zero(vt))
+			// effects apply when a value was received
+			after := st.clone()
+			for _, gs := range cc.chanEffects {
+				e.ghostAssign(fr, &after, env, gs)
+			}
+			for name, nv := range after.heap {
+				if strings.HasPrefix(name, "G:") {
+					r := e.regs[name]
+					e.setReg(st, r, e.tb.Ite(okT, nv, e.reg(st, r)))
+				}
+			}
+			if x.CommaOk {
+				fr.vals[x] = Val{T: []*Term{val, okT}}
+			} else {
+				fr.vals[x] = Val{T: []*Term{val}}
+			}
+			e.modelled("channel " + cc.key + ": receives follow the ghost protocol of its `channel` block (trusted)")
+			return
+		}
+		e.contractError(fr, "channel:"+cc.key, fmt.Errorf("%v %v", err1, err2))
+	}
 	e.note("channel receive: unconstrained value")
 	e.modelled("channel receive yields an unconstrained value")
 	if x.CommaOk {
@@ -317,8 +393,12 @@ func (e *Enc) recv(fr *Frame, x *ssa.UnOp, st *State) {
 // globalRead: package-level variables are unknown but stable within a unit (same constant each read).
 func (e *Enc) globalRead(g *ssa.Global, t types.Type) *Term {
 	c := e.tb.Const("gval_"+g.Pkg.Pkg.Name()+"."+g.Name(), e.sortOf(t))
+	first := !e.wfDone[c.id]
 	e.assumeWF(e.tb.True(), t, c)
 	e.modelled("package-level variables are constant during a call")
+	if first {
+		e.globalInitFacts(g, t, c)
+	}
 	return c
 }
 
@@ -807,4 +887,101 @@ func (e *Enc) strEq(a, b *Term) *Term {
 		return tb.Eq(tb.StrLen(a), tb.Int(0))
 	}
 	return tb.Eq(a, b)
+}
+
+// ghostSets executes `ghost-set "<anchor>" g(x) = E` right after the first call whose source text contains the anchor.
+func (e *Enc) ghostSets(fr *Frame, x *ssa.Call, st *State) {
+	if fr.con != nil && fr.parent == nil {
+		for i := range fr.con.assertsAfter {
+			a := &fr.con.assertsAfter[i]
+			if fr.afterDone[i] {
+				continue
+			}
+			if !strings.Contains(e.srcText(fr.fn, x.Pos(), isCallExpr), a.anchor) {
+				continue
+			}
+			fr.afterDone[i] = true
+			fr.pendingAfter = append(fr.pendingAfter, pendingAssert{a: a, pos: x.Pos(), call: x})
+		}
+	}
+	if fr.con == nil || len(fr.con.ghostStmts) == 0 {
+		return
+	}
+	var text string
+	for i, gs := range fr.con.ghostStmts {
+		if fr.ghostDone[i] {
+			continue
+		}
+		if text == "" {
+			text = e.srcText(fr.fn, x.Pos(), isCallExpr)
+		}
+		if !strings.Contains(text, gs.anchor) {
+			continue
+		}
+		fr.ghostDone[i] = true
+		fr.pendingGhost = append(fr.pendingGhost, gs)
+	}
+}
+
+// globalInitFacts: a package-level variable that is initialised from constants in the package initialiser and is
+// stored to nowhere else in the repository has exactly those values.
+func (e *Enc) globalInitFacts(g *ssa.Global, t types.Type, c *Term) {
+	initFn := g.Pkg.Func("init")
+	if initFn == nil || initFn.Blocks == nil {
+		return
+	}
+	// any store outside init?
+	for f := range e.L.allFuncs {
+		if f == initFn || f.Blocks == nil || !inRepo(f) {
+			continue
+		}
+		for _, b := range f.Blocks {
+			for _, in := range b.Instrs {
+				for _, op := range in.Operands(nil) {
+					if *op == ssa.Value(g) {
+						switch x := in.(type) {
+						case *ssa.UnOp:
+							if x.Op == token.MUL {
+								continue // a read
+							}
+						case *ssa.FieldAddr:
+							// reads through a field address are fine if every referrer is a load
+							onlyLoads := true
+							for _, r := range *x.Referrers() {
+								if u, ok := r.(*ssa.UnOp); !ok || u.Op != token.MUL {
+									onlyLoads = false
+								}
+							}
+							if onlyLoads {
+								continue
+							}
+						}
+						return
+					}
+				}
+			}
+		}
+	}
+	tb := e.tb
+	su, isStruct := t.Underlying().(*types.Struct)
+	for _, b := range initFn.Blocks {
+		for _, in := range b.Instrs {
+			st, ok := in.(*ssa.Store)
+			if !ok {
+				continue
+			}
+			cv, isConst := st.Val.(*ssa.Const)
+			if !isConst {
+				continue
+			}
+			if st.Addr == ssa.Value(g) && !isStruct {
+				e.assume(tb.True(), tb.Eq(c, e.constTerm(cv)))
+			}
+			if fa, ok := st.Addr.(*ssa.FieldAddr); ok && fa.X == ssa.Value(g) && isStruct {
+				s := e.structSortOf(t, su)
+				e.assume(tb.True(), tb.Eq(tb.Field(s, fa.Field, c), e.constTerm(cv)))
+			}
+		}
+	}
+	e.modelled("package-level variable " + g.Name() + " keeps the constants it is initialised with (no other store in the repository)")
 }
